@@ -96,6 +96,7 @@ class UnitReport:
         self.clauses = 0
         self.text_hash = ''
         self.fn_tags = {}
+        self.isolated = []
 
 
 def _short(msg):
@@ -204,8 +205,36 @@ def verify_unit(name, sources, rlimit=None, keep_dir=None):
     if res.crashed:
         rep.error = 'verus crashed or produced no JSON: %s' % (res.raw_stderr[-1500:])
         return rep
+    # Stability filter: a function that failed in the whole-unit run is re-verified on its own (fresh solver
+    # state). Only diagnostics that reproduce in isolation are kept; a function that verifies in isolation has
+    # all its obligations discharged. This removes order-dependent solver flakiness, never a real failure.
+    diags = res.diags
+    rep.isolated = []
+    failed_fns = [fb['function'] for fb in res.functions
+                  if not fb['success'] and not fb['function'].endswith('::' + verus.SENTINEL)]
+    has_nonsem = any(d.level == 'error' and d.kind() == 'other' for d in res.diags)
+    if failed_fns and not has_nonsem and os.environ.get('VX_NO_ISOLATE') != '1':
+        keep = [d for d in res.diags if d.level != 'error' or verus.enclosing_fn(u, d.line) == verus.SENTINEL]
+        for full in failed_fns:
+            short = full.split('::', 1)[1] if '::' in full else full
+            r2 = verus.run(text, name, rlimit=rlimit, extra=['--verify-root', '--verify-function', short])
+            ok2 = (not r2.crashed) and r2.errors == 0 and r2.verified >= 1
+            rep.isolated.append({'function': full, 'verified_in_isolation': ok2})
+            if r2.crashed or (r2.verified == 0 and r2.errors == 0):
+                # could not isolate (name not unique?): keep the original diagnostics for this function
+                last = full.split('::')[-1]
+                keep += [d for d in res.diags if d.level == 'error' and verus.enclosing_fn(u, d.line) == last]
+                continue
+            if ok2:
+                for fb in res.functions:
+                    if fb['function'] == full:
+                        fb['success'] = True
+                        fb['note'] = 'verified in isolation after an unstable whole-unit run'
+            else:
+                keep += [d for d in r2.diags if d.level == 'error']
+        diags = keep
     sent_fail = False
-    for d in res.diags:
+    for d in diags:
         if d.level != 'error':
             continue
         ln = d.line
